@@ -193,6 +193,7 @@ PROPS = {
         "trusted": ["that evaluation-time warning collection does not change results is checked by the C01 suite (four entry points)"], "assumptions": [],
     },
     "C07": {
+        "ext_in_quick": True,
         "lean_targets": ["Pep508.Theorems.C08b", "Pep508.Theorems.C07", "Pep508.Theorems.C07b", "Pep508.Theorems.C06", "Pep508.Theorems.C17", "Pep508.Theorems.C18", "Pep508.Theorems.NonVacuityC"],
         "theorems": ["Pep508.C08.requirement_layout_full", "Pep508.C08.requirement_layout_components", "Pep508.C08.requirement_layout_independent", "Pep508.C08.requirement_layout_independent_den", "Pep508.C08.layout_full_never_rejected", "Pep508.C08.k2_instance_loose", "Pep508.C08.k2_instance_independent", "Pep508.C08.empty_marker_rejected", "Pep508.C07.layout_accepted", "Pep508.C07.layout_accepted_marker", "Pep508.C07.layout_calls", "Pep508.C07.layout_calls_spans",
                      "Pep508.C07.recorded_texts_trim", "Pep508.C07.layout_never_rejected", "Pep508.C07.layout_components", "Pep508.C07.layout_components_marker",
